@@ -308,28 +308,54 @@ func literalise(c *Case, out *Outcome) *Case {
 func handleViolation(p Prop, c *Case, out *Outcome, a WorkerArgs) (*ViolationRec, string) {
 	target := out.V.Inv
 	// determinism: the same seeded case must fail the same way again
-	out2 := safeExec(p, c, a.ExecWrap)
-	if out2.Infra != "" {
-		return nil, out2.Infra
+	var out2 *Outcome
+	for i := 0; i < 4; i++ { // (four re-executions: an order dependence with even odds is missed once in sixteen)
+		out2 = safeExec(p, c, a.ExecWrap)
+		if out2.Infra != "" {
+			return nil, out2.Infra
+		}
+		if out2.V == nil || out2.V.Inv != target || out2.V.Step != out.V.Step {
+			break
+		}
 	}
 	if out2.V == nil || out2.V.Inv != target || out2.V.Step != out.V.Step {
 		// The same seeded case behaved differently. If it fails the same way again within a few
 		// retries the implementation itself is order-dependent (Go map iteration, which the simulator
 		// does not own): report it, unminimised, and say so. Otherwise it is our problem (exit 2).
-		repro := 0
-		for i := 0; i < 12; i++ {
+		repro, anyFail := 0, 0
+		const reexec = 200 // (a run takes milliseconds; a map-order dependence with a failure probability of a few percent must still show)
+		other := map[string]int{}
+		for i := 0; i < reexec; i++ {
 			o3 := safeExec(p, c, a.ExecWrap)
-			if o3.Infra == "" && o3.V != nil && o3.V.Inv == target {
-				repro++
+			if o3.Infra == "" && o3.V != nil {
+				anyFail++
+				if o3.V.Inv == target {
+					repro++
+				} else {
+					other[o3.V.Inv]++
+				}
 			}
 		}
-		if repro == 0 {
+		if anyFail == 0 {
 			return nil, fmt.Sprintf("nondeterminism: run %d failed with %s at step %d, re-execution gave %v", c.Run, target, out.V.Step, out2.V)
+		}
+		if repro == 0 {
+			// it fails again and again, but never in the same place: still a violation of the property
+			final := c.Clone()
+			final.Violation = out.V
+			final.OpenKeys = openKeyList()
+			final.Flaky = fmt.Sprintf("failed in %d of %d re-executions, each time with another invariant %v: the outcome depends on Go map iteration order inside the implementation", anyFail, reexec, other)
+			path := filepath.Join(a.ReplayDir, fmt.Sprintf("%s-%d-%d.json", a.Prop, a.Seed, c.Run))
+			b, _ := json.MarshalIndent(final, "", " ")
+			if err := os.WriteFile(path, b, 0o644); err != nil {
+				return nil, "cannot write replay file: " + err.Error()
+			}
+			return &ViolationRec{Run: c.Run, Inv: out.V.Inv, Msg: out.V.Msg + " [" + final.Flaky + "]", Key: out.V.Key, Replay: path, Ops: c.NumOps(), Ops0: c.NumOps()}, ""
 		}
 		final := c.Clone()
 		final.Violation = out.V
 		final.OpenKeys = openKeyList()
-		final.Flaky = fmt.Sprintf("reproduced in %d of 13 re-executions: the outcome depends on Go map iteration order inside the implementation", repro+1)
+		final.Flaky = fmt.Sprintf("reproduced in %d of %d re-executions: the outcome depends on Go map iteration order inside the implementation", repro+1, reexec+1)
 		path := filepath.Join(a.ReplayDir, fmt.Sprintf("%s-%d-%d.json", a.Prop, a.Seed, c.Run))
 		b, _ := json.MarshalIndent(final, "", " ")
 		if err := os.WriteFile(path, b, 0o644); err != nil {
@@ -470,12 +496,22 @@ func Replay(path string, wrap func(Prop, *Case) *Outcome) int {
 		openKeys[k] = true
 	}
 	out := safeExec(p, &c, wrap)
-	if c.Flaky != "" && want != nil {
-		for i := 0; i < 60 && (out.V == nil || out.V.Inv != want.Inv); i++ {
+	if want != nil && (c.Flaky != "" || out.V == nil || out.V.Inv != want.Inv) {
+		// order-dependent implementation behaviour (recorded as such, or met only now): retry; the recorded invariant is preferred, but any violation of the
+		// property on this case reproduces the finding
+		var anyV *Outcome
+		for i := 0; i < 1000 && (out.V == nil || out.V.Inv != want.Inv); i++ {
+			if out.V != nil && anyV == nil {
+				anyV = out
+			}
 			out = safeExec(p, &c, wrap)
 		}
 		if out.V != nil && out.V.Inv == want.Inv {
 			out.V.Step = want.Step
+		} else if anyV != nil {
+			fmt.Printf("replay %s: the recorded invariant %s did not recur in 1000 executions; the case violates the property as %s at step %d: %s\n", path, want.Inv, anyV.V.Inv, anyV.V.Step, anyV.V.Msg)
+			fmt.Printf("VIOLATION property=%s replay=%s\n", c.Prop, path)
+			return 1
 		}
 	}
 	if out.Infra != "" {
